@@ -116,19 +116,26 @@ static const uint64_t vf_gost_C[12][8] = {
 
 /* 6.2 S: pi on every byte; 6.3 P: byte i <- byte tau(i), tau = transpose of the 8x8 byte
  * matrix; 6.4 L: l on every 64-bit word.  LPS = L o P o S. */
+/* VF_GOST_PI / VF_GOST_AROW: the tables read by the definitional LPS.  By default the
+ * specification's own; the small-table T job reads the library's (proved equal entry by entry
+ * to the specification's by job gost.small.tables) so that both sides index the same array. */
+#ifndef VF_GOST_PI
+#define VF_GOST_PI(x)	vf_gost_pi[x]
+#define VF_GOST_AROW(t)	vf_gost_A[t]
+#endif
 static inline void
 vf_gost_lps_def(uint64_t out[8], const uint64_t in[8]) {
 	uint8_t s[64], p[64];
 	unsigned i, j, t;
 	for (i = 0; i < 64; i++)
-		s[i] = vf_gost_pi[(uint8_t)(in[i >> 3] >> (8 * (i & 7)))];
+		s[i] = VF_GOST_PI((uint8_t)(in[i >> 3] >> (8 * (i & 7))));
 	for (i = 0; i < 64; i++)
 		p[i] = s[8 * (i & 7) + (i >> 3)];		/* tau(i) = 8 * (i mod 8) + i div 8 */
 	for (i = 0; i < 8; i++) {
 		uint64_t w = 0, c = 0;
 		for (j = 0; j < 8; j++) w |= (uint64_t)p[8 * i + j] << (8 * j);
 		for (t = 0; t < 64; t++)
-			if ((w >> (63 - t)) & 1) c ^= vf_gost_A[t];
+			if ((w >> (63 - t)) & 1) c ^= VF_GOST_AROW(t);
 		out[i] = c;
 	}
 }
@@ -178,6 +185,33 @@ vf_gost_lps_abs(uint64_t out[8], const uint64_t in[8]) {
 }
 #undef VF_GOST_LPS
 #define VF_GOST_LPS(out, in)	vf_gost_lps_abs(out, in)
+#endif
+/* LPS as a LOCK-STEP ORACLE (composition jobs gost.T.gN*).  The library's g_N step runs first
+ * with gost3411_2012_XSLP replaced by its contract in oracle form: call number n records its
+ * argument a xor b in vf_lps_in[n] and returns the arbitrary but fixed row vf_lps_out[n].
+ * The specification then runs with this LPS: its j-th application must be applied to exactly
+ * vf_lps_in[j] (asserted) and yields vf_lps_out[j].  If all assertions hold and the final
+ * states agree, then by induction over the call number the library and the specification
+ * apply LPS to the same arguments in the same order and combine the results in the same way -
+ * for EVERY function LPS, in particular the standard's, for which gost3411_2012_XSLP is
+ * proved separately (jobs gost.XSLP.*). */
+#ifdef VF_GOST_LPS_ORACLE
+#define VF_LPS_MAX 32
+uint64_t vf_lps_in[VF_LPS_MAX][8];
+uint64_t vf_lps_out[VF_LPS_MAX][8];	/* never assigned: an arbitrary table */
+size_t vf_lps_n;			/* applications by the library */
+size_t vf_lps_j;			/* applications by the specification */
+static inline void
+vf_gost_lps_oracle(uint64_t out[8], const uint64_t in[8]) {
+	__CPROVER_assert(vf_lps_j < vf_lps_n, "specification applies LPS no more often than the library");
+	for (unsigned i = 0; i < 8; i++)
+		__CPROVER_assert(in[i] == vf_lps_in[vf_lps_j][i], "same LPS argument as the library's call with this number");
+	for (unsigned i = 0; i < 8; i++)
+		out[i] = vf_lps_out[vf_lps_j][i];
+	vf_lps_j++;
+}
+#undef VF_GOST_LPS
+#define VF_GOST_LPS(out, in)	vf_gost_lps_oracle(out, in)
 #endif
 #ifndef VF_GOST_LPS
 #define VF_GOST_LPS(out, in)	vf_gost_lps_def(out, in)
